@@ -538,7 +538,8 @@ def gen_case(rng, quick, flavour):
         st = case["steps"][k - nleaves]
         case["obs"].append({"o": "zipper", "a": st["a"][0], "b": st["a"][1]})
         if rng.random() < 0.6:
-            case["obs"].append({"o": "compress", "a": st["a"][0], "b": st["a"][1], "method": rng.choice(["1site", "2site"]),
+            # the 2site sweep is empty for N = 1 (nothing to optimise): only 1site there
+            case["obs"].append({"o": "compress", "a": st["a"][0], "b": st["a"][1], "method": rng.choice(["1site", "2site"]) if N > 1 else "1site",
                                 "start": rng.choice(["zipper", "perturbed"])})
     return case
 
@@ -981,6 +982,48 @@ def malformed(ctx):
                     ctx.fail("correspondence", f"c06:malformed:{name}", f"real code: {got[name]}, model rejects: {merr}")
 
 
+
+def edge_probes(ctx):
+    """two edge inputs on which the pinned code misbehaves (candidate defects).  They are raised as oracle failures only
+    when registered in known_findings.json (so that the check reports them as KNOWN-FINDING); otherwise they are notes."""
+    import yastn
+    import yastn.tn.mps as mps
+    from ..core import load_known
+    known = {k.get("key") for k in load_known() if k.get("property") == "C06"}
+    ops = yastn.operators.SpinlessFermions(sym='U1')
+    I = mps.product_mpo(ops.I(), 2)
+    psi = mps.product_mps([ops.vec_n(1), ops.vec_n(0)])
+    found = []
+    # E1: mps_from_tensor of an exactly zero tensor divides 0/0 (psi.A[last] = ten / ten.norm())
+    try:
+        with np.errstate(all="ignore"):
+            psi1 = mps.product_mps([ops.vec_n(1)])
+            y = mps.mps_from_tensor((0 * psi1).to_tensor())
+            v = y.to_tensor().to_numpy()
+        if not np.all(np.isfinite(v)):
+            found.append(("c06:from_tensor:zero-tensor", "mps_from_tensor of an exactly zero tensor returns NaN tensors (unguarded 0/0 in "
+                          "_initialize.py: psi.A[psi.last] = ten / psi.factor); e.g. mps_from_tensor((0 * product_mps([vec_n(1)])).to_tensor())",
+                          {"kind": "edge", "probe": "E1"}))
+    except Exception as e:
+        found.append(("c06:from_tensor:zero-tensor", f"mps_from_tensor of a zero tensor raised {type(e).__name__}: {e}", {"kind": "edge", "probe": "E1"}))
+    # E2: an operator without any block (cp@cp == 0 by symmetry) cannot be measured
+    try:
+        cpcp = mps.product_mpo([ops.cp(), ops.I()]) @ mps.product_mpo([ops.cp(), ops.I()])
+        phi = mps.product_mps([ops.vec_n(1), ops.vec_n(0)])
+        val = mps.measure_mpo(phi, cpcp, phi)
+        if abs(val) != 0:
+            found.append(("c06:env:blockless-operator", f"<phi|cp cp|phi> = {val!r}, expected 0", {"kind": "edge", "probe": "E2"}))
+    except Exception as e:
+        found.append(("c06:env:blockless-operator", "measure_mpo(bra, op, ket) with an operator that has no symmetry block (e.g. "
+                      f"product_mpo([cp, I]) @ product_mpo([cp, I]), identically zero) raises {type(e).__name__} ({e}) instead of returning 0 "
+                      "(_env.py EnvParent_3_obc.__init__: legv.t[0] on an empty leg)", {"kind": "edge", "probe": "E2"}))
+    for key, what, case in found:
+        ctx.count(f"edge:{key}")
+        if key in known:
+            ctx.fail("oracle", key, what, case=case, concrete=True)
+        else:
+            ctx.notes.append(f"candidate defect (not registered in known_findings.json, not counted): {key}: {what}")
+
 # ----------------------------------------------------------------------------------------------
 
 def process(ctx, cases, cap):
@@ -1038,6 +1081,7 @@ def run(ctx):
     cap = 1100 if ctx.quick else 5000
     ncases = 150 if ctx.quick else 2500
     malformed(ctx)
+    edge_probes(ctx)
     fixed = fixed_cases()
     process(ctx, fixed, cap)
     cases = []
@@ -1085,6 +1129,8 @@ def search(ctx, broken, budget_s):
 def replay(ctx, obj):
     f = obj.get("finding") or {}
     case = f.get("case") or obj.get("case")
+    if case and case.get("kind") == "edge":
+        return edge_probes(ctx)
     if not case or case.get("kind") != "prog":
         return run(ctx)
     ctx.rule = "replay of one stored case"
